@@ -173,6 +173,9 @@ def body_real_images(oi):
     from xv.core import pick, untraced
     oi = pick(oi, len(REAL_OPS))
     with untraced():
+        from xv.core import real_stack
+        if not real_stack("wsgi"):
+            return (True, "real-unavailable")
         import json
         import os
         import subprocess
